@@ -551,7 +551,7 @@ def run_c08(chk):
     for k in sel:
         k["runplanes"] = [1]
         nin += choose_inis(k, chk.seed, cfgt["budget_all"], cfgt["nrandom"])
-    st = run_kernels(chk, sel, ["InBounds", "NoDeref"], "c08")
+    st = run_kernels(chk, sel, ["NoDeref", "InBounds"], "c08")
     naccess = sum(sum(1 for ins in k["code"] if ins["op"] in ("assign", "aadd", "vdecl")) for k in sel)
     chk.add(traces_validated_against_impl=len(sel), evaluations=st["runs"], distinct_nontrivial=st["runs"],
             kernels=len(sel), entity_permutation_vectors=nin, statements_with_accesses=naccess,
@@ -647,10 +647,11 @@ def run_optimizer(chk):
     variants = ("full", "none", "sections", "loops", "licm")
     kernels, errors, bst = build(chk, names, variants=variants, record_calls=True, demos=cfgt["demos"], nplanes=3)
     _report_build_errors(chk, errors, "C17 corpus")
-    lim = 3500 if cfgt["quick"] else 40000
+    lim = 3000 if cfgt["quick"] else 40000
     full = {k["label"]: k for k in kernels if k["variant"] == "full"}
     pairs, used = [], {}
     nplanes = (1, 3, 5)                           # three independent seeds of input data (A0 = 0 planes)
+    seen_code, identical = {}, 0
     for k in kernels:
         if k["variant"] == "full" or k["label"] not in full:
             continue
@@ -658,9 +659,14 @@ def run_optimizer(chk):
         if max(k["steps"] or 0, f["steps"] or 0) > lim:
             chk.add(optimizer_kernels_skipped_too_long=1)
             continue
+        h = json.dumps(k["code"], sort_keys=True)
+        if h == json.dumps(f["code"], sort_keys=True) or (k["label"], h) in seen_code:
+            identical += 1                 # the same program as the optimised one / as a variant already paired
+            continue
+        seen_code[(k["label"], h)] = k["variant"]
         for kk in (k, f):
             if kk["name"] not in used:
-                choose_inis(kk, chk.seed, 0, 1, force="base")
+                choose_inis(kk, chk.seed, 0, 0 if cfgt["quick"] else 2, force="base")
                 kk["runplanes"] = [1]
                 used[kk["name"]] = kk
         for p in nplanes:
@@ -670,7 +676,7 @@ def run_optimizer(chk):
                     json.dumps(k["code"]) != json.dumps(full[k["label"]]["code"]))
     chk.add(optimizer_pairs=ps["pairs_done"], optimizer_pairs_outside_value_model=ps["dz"], optimizer_calls_recorded=bst["opt_calls"],
             optimizer_kernels=len([k for k in used.values() if k["variant"] == "full"]), optimizer_variants_differing=differing,
-            optimizer_states=ps["states"], optimizer_build=bst, optimizer_half="run",
+            optimizer_states=ps["states"], optimizer_build=bst, optimizer_half="run", optimizer_variants_identical_to_another=identical,
             optimizer_rule="for every corpus kernel the real generators are run with optimizer.optimize replaced by: nothing, "
                            "fuse_sections only, fuse_loops only, licm only (the unoptimised statement lists are the recorded inputs of "
                            "every optimize call); each variant and the fully optimised kernel run in lock step on the same three "
